@@ -230,3 +230,214 @@ Theorem sql_lex_roundtrip : forall toks, wf_toks toks = true -> lex (render toks
 Proof.
   intros toks H. unfold lex. rewrite (render_no_nul toks H). apply lex_fuel_render; [exact H | lia].
 Qed.
+
+(* ---------- the tokens printed for a query are well-formed ---------- *)
+Lemma dec_fuel_digits : forall fuel n acc,
+  forallb is_digit acc = true -> forallb is_digit (dec_of_pos_fuel fuel n acc) = true.
+Proof.
+  induction fuel as [|f IH]; intros n acc Hacc; simpl; [exact Hacc|].
+  assert (Hd : is_digit (n mod 10 + 48)%N = true).
+  { pose proof (N.mod_lt n 10 ltac:(lia)). unfold is_digit. lia. }
+  destruct (N.ltb n 10).
+  - simpl. rewrite Hd, Hacc. reflexivity.
+  - apply IH. simpl. rewrite Hd, Hacc. reflexivity.
+Qed.
+Lemma dec_fuel_nonempty : forall fuel n acc, acc <> [] -> dec_of_pos_fuel fuel n acc <> [].
+Proof.
+  induction fuel as [|f IH]; intros n acc Hacc; simpl; [exact Hacc|].
+  destruct (N.ltb n 10); [discriminate | apply IH; discriminate].
+Qed.
+Lemma dec_of_N_wf n : wf_tok (TNum (dec_of_N n)) = true.
+Proof.
+  unfold wf_tok, dec_of_N. apply andb_true_iff. split.
+  - destruct (dec_of_pos_fuel (S (N.to_nat (N.size n))) n []) eqn:E; [|reflexivity].
+    exfalso. revert E. simpl. destruct (N.ltb n 10); [discriminate | apply dec_fuel_nonempty; discriminate].
+  - apply dec_fuel_digits. reflexivity.
+Qed.
+
+Lemma wf_toks_app a b : wf_toks (a ++ b) = wf_toks a && wf_toks b.
+Proof. apply forallb_app. Qed.
+Lemma num_toks_wf z : wf_toks (num_toks z) = true.
+Proof.
+  unfold num_toks. destruct (Z.ltb z 0); cbn [wf_toks forallb]; rewrite dec_of_N_wf; reflexivity.
+Qed.
+
+Lemma comma_sep_wf l : forallb wf_toks l = true -> wf_toks (comma_sep l) = true.
+Proof.
+  induction l as [|x l IH]; intros H; [reflexivity|].
+  cbn [forallb] in H. apply andb_true_iff in H. destruct H as [Hx Hl].
+  destruct l as [|y l']; [exact Hx|].
+  change (comma_sep (x :: y :: l')) with (x ++ sy "," :: comma_sep (y :: l')).
+  rewrite wf_toks_app, Hx. cbn [wf_toks forallb]. change (wf_tok (sy ",")) with true. apply IH. exact Hl.
+Qed.
+Lemma in_list_wf l : forallb wf_toks l = true -> wf_toks (in_list l) = true.
+Proof.
+  intros H. unfold in_list. cbn [wf_toks forallb]. change (wf_tok (kw "IN")) with true. change (wf_tok (sy "(")) with true.
+  cbn [andb]. change (forallb wf_tok (comma_sep l ++ [sy ")"])) with (wf_toks (comma_sep l ++ [sy ")"])).
+  rewrite wf_toks_app, (comma_sep_wf l H). reflexivity.
+Qed.
+Lemma sep_by_wf sep l : wf_toks sep = true -> forallb wf_toks l = true -> wf_toks (sep_by sep l) = true.
+Proof.
+  intros Hs. induction l as [|x l IH]; intros H; [reflexivity|].
+  cbn [forallb] in H. apply andb_true_iff in H. destruct H as [Hx Hl].
+  destruct l as [|y l']; [exact Hx|].
+  change (sep_by sep (x :: y :: l')) with (x ++ sep ++ sep_by sep (y :: l')).
+  rewrite !wf_toks_app, Hx, Hs. apply IH. exact Hl.
+Qed.
+
+(* what validation guarantees about the client-supplied strings *)
+Definition hex_str (s : pystr) : bool := forallb is_hex_char s.
+Definition wf_cond (c : cond) : bool :=
+  match c with
+  | CIdLike p => hex_str p
+  | CIdIn ids => forallb (fun h => hex_str h && Nat.even (length h)) ids
+  | CAuthors hs => forallb (fun h => hex_str h && Nat.even (length h)) hs
+  | CTag n vs => no_nul n && forallb no_nul vs
+  | _ => true
+  end.
+
+Lemma hex_no_nul s : hex_str s = true -> no_nul s = true.
+Proof.
+  intros H. unfold no_nul. rewrite (forallb_no_nul is_hex_char s); [reflexivity | | exact H].
+  intros c Hc. apply hex_char_range in Hc. lia.
+Qed.
+Lemma no_nul_app a b : no_nul (a ++ b) = no_nul a && no_nul b.
+Proof. unfold no_nul. rewrite existsb_app, negb_orb. reflexivity. Qed.
+
+Lemma forallb_map {A B} (f : A -> B) (p : B -> bool) l : forallb p (map f l) = forallb (fun x => p (f x)) l.
+Proof. induction l; simpl; [reflexivity|]. rewrite IHl. reflexivity. Qed.
+Lemma forallb_impl {A} (p q : A -> bool) l : (forall x, p x = true -> q x = true) -> forallb p l = true -> forallb q l = true.
+Proof.
+  intros H. induction l as [|x l IH]; simpl; [reflexivity|]. intros E. apply andb_true_iff in E.
+  destruct E as [Ex El]. rewrite (H x Ex), (IH El). reflexivity.
+Qed.
+
+Lemma tag_subselect_wf n vs : no_nul n = true -> forallb no_nul vs = true -> wf_toks (tag_subselect n vs) = true.
+Proof.
+  intros Hn Hv. unfold tag_subselect. rewrite !wf_toks_app.
+  rewrite in_list_wf.
+  - cbn [wf_toks forallb wf_tok]. rewrite Hn. reflexivity.
+  - rewrite forallb_map. revert Hv. apply forallb_impl. intros v Hvv. cbn [wf_toks forallb wf_tok]. rewrite Hvv. reflexivity.
+Qed.
+
+Lemma cond_toks_wf c : wf_cond c = true -> wf_toks (cond_toks c) = true.
+Proof.
+  destruct c as [p|ids|hs|ks|z|z|n vs]; unfold wf_cond; intros H; unfold cond_toks.
+  - cbn [wf_toks forallb wf_tok]. rewrite no_nul_app, (hex_no_nul p H). reflexivity.
+  - rewrite wf_toks_app. rewrite in_list_wf; [reflexivity|].
+    rewrite forallb_map. revert H. apply forallb_impl. intros h Hh. cbn [wf_toks forallb wf_tok]. rewrite Hh. reflexivity.
+  - rewrite !wf_toks_app. rewrite in_list_wf.
+    + rewrite tag_subselect_wf; [reflexivity | reflexivity |].
+      revert H. apply forallb_impl. intros h Hh. apply andb_true_iff in Hh. apply hex_no_nul. tauto.
+    + rewrite forallb_map. revert H. apply forallb_impl. intros h Hh. cbn [wf_toks forallb wf_tok]. rewrite Hh. reflexivity.
+  - cbn [wf_toks forallb]. change (wf_tok (kw "kind")) with true. cbn [andb].
+    change (forallb wf_tok (in_list (map num_toks ks))) with (wf_toks (in_list (map num_toks ks))).
+    apply in_list_wf. rewrite forallb_map. apply forallb_forall. intros k _. apply num_toks_wf.
+  - rewrite wf_toks_app, num_toks_wf. reflexivity.
+  - rewrite wf_toks_app, num_toks_wf. reflexivity.
+  - apply andb_true_iff in H. destruct H as [Hn Hv]. apply tag_subselect_wf; assumption.
+Qed.
+
+Lemma clause_toks_wf c : forallb wf_cond c = true -> wf_toks (clause_toks c) = true.
+Proof.
+  intros H. unfold clause_toks. destruct c as [|x c']; [reflexivity|].
+  apply sep_by_wf; [reflexivity|]. rewrite forallb_map. revert H. apply forallb_impl. intros y. apply cond_toks_wf.
+Qed.
+
+Lemma dedup_groups_subset l g : In g (dedup_groups l) -> In g l.
+Proof.
+  induction l as [|x l IH]; simpl; [auto|].
+  destruct (existsb (list_eqb tok_eqb x) l); simpl; intros H; [right; auto | destruct H; [left | right]; auto].
+Qed.
+
+Lemma query_toks_wf q :
+  forallb (forallb wf_cond) (q_where q) = true -> wf_toks (query_toks q) = true.
+Proof.
+  intros H. unfold query_toks. rewrite !wf_toks_app.
+  change (wf_toks select_head) with true. cbn [andb].
+  unfold select_tail. rewrite wf_toks_app, num_toks_wf, andb_true_r.
+  change (wf_toks [kw "ORDER"; kw "BY"; kw "created_at"; kw "DESC"; kw "LIMIT"]) with true. rewrite andb_true_r.
+  unfold where_toks. destruct (query_groups q) as [|g gs] eqn:E; [reflexivity|].
+  rewrite !wf_toks_app. change (wf_toks [kw "WHERE"; sy "("]) with true. change (wf_toks [sy ")"]) with true.
+  rewrite andb_true_r. cbn [andb]. apply sep_by_wf; [reflexivity|].
+  apply forallb_forall. intros x Hx. rewrite <- E in Hx. unfold query_groups in Hx.
+  apply dedup_groups_subset in Hx. apply in_map_iff in Hx. destruct Hx as [c [<- Hc]].
+  apply clause_toks_wf. rewrite forallb_forall in H. apply H. exact Hc.
+Qed.
+
+(* validated filter: ids / authors are hex strings, tag names and values contain no NUL *)
+Definition valid_filter (f : filter) : bool :=
+  match f_ids f with Some l => forallb hex_str l | None => true end &&
+  match f_authors f with Some l => forallb hex_str l | None => true end &&
+  forallb (fun nv => no_nul (fst nv) && forallb no_nul (snd nv)) (f_tags f).
+
+Lemma len64_even s : len_is 64 s = true -> Nat.even (length s) = true.
+Proof. unfold len_is. intros H. apply Nat.eqb_eq in H. rewrite H. reflexivity. Qed.
+
+Lemma forallb_filter {A} (p q : A -> bool) l : forallb p l = true -> forallb p (List.filter q l) = true.
+Proof.
+  intros H. apply forallb_forall. intros x Hx. apply filter_In in Hx. rewrite forallb_forall in H. apply H. tauto.
+Qed.
+Lemma dedup_str_subset l x : In x (dedup_str l) -> In x l.
+Proof.
+  induction l as [|y l IH]; simpl; [auto|].
+  destruct (mem_str y l); simpl; intros H; [right; auto | destruct H; [left | right]; auto].
+Qed.
+
+Lemma tags_conds_wf tags c :
+  forallb (fun nv => no_nul (fst nv) && forallb no_nul (snd nv)) tags = true ->
+  tags_conds tags = Some c -> forallb wf_cond c = true.
+Proof.
+  revert c. induction tags as [|nv tags IH]; intros c H E; simpl in E.
+  - inversion E. reflexivity.
+  - cbn [forallb] in H. apply andb_true_iff in H. destruct H as [Hnv Ht].
+    fold (tags_conds tags) in E. destruct (tags_conds tags) as [l|] eqn:El; [|discriminate].
+    destruct (is_nil (snd nv)); [discriminate|]. inversion E. subst c. cbn [forallb wf_cond].
+    rewrite Hnv. apply (IH l Ht eq_refl).
+Qed.
+
+Lemma evaluate_filter_wf f c : valid_filter f = true -> evaluate_filter f = Some c -> forallb wf_cond c = true.
+Proof.
+  unfold valid_filter, evaluate_filter. intros H E.
+  apply andb_true_iff in H. destruct H as [H Htags]. apply andb_true_iff in H. destruct H as [Hids Hauth].
+  destruct (opt_conds (f_ids f) _) as [c1|] eqn:E1; [|discriminate].
+  destruct (opt_conds (f_authors f) _) as [c2|] eqn:E2; [|discriminate].
+  destruct (opt_conds (f_kinds f) _) as [c3|] eqn:E3; [|discriminate].
+  destruct (tags_conds (f_tags f)) as [c6|] eqn:E6; [|discriminate].
+  inversion E. subst c. rewrite !forallb_app.
+  assert (W1 : forallb wf_cond c1 = true).
+  { unfold opt_conds in E1. destruct (f_ids f) as [ids|]; [|inversion E1; reflexivity].
+    destruct (is_nil ids); [discriminate|]. inversion E1. unfold ids_conds. rewrite forallb_app.
+    apply andb_true_iff. split.
+    - rewrite forallb_map. apply forallb_forall. intros x Hx. apply filter_In in Hx. destruct Hx as [Hx _].
+      rewrite forallb_forall in Hids. apply (Hids x Hx).
+    - destruct (is_nil (List.filter (len_is 64) ids)); [reflexivity|]. cbn [forallb wf_cond]. rewrite andb_true_r.
+      apply forallb_forall. intros x Hx. apply filter_In in Hx. destruct Hx as [Hx H64].
+      rewrite forallb_forall in Hids. rewrite (Hids x Hx), (len64_even x H64). reflexivity. }
+  assert (W2 : forallb wf_cond c2 = true).
+  { unfold opt_conds in E2. destruct (f_authors f) as [a|]; [|inversion E2; reflexivity].
+    destruct (is_nil (dedup_str (List.filter (len_is 64) a))); [discriminate|]. inversion E2.
+    cbn [forallb wf_cond]. rewrite andb_true_r. apply forallb_forall. intros x Hx.
+    apply dedup_str_subset in Hx. apply filter_In in Hx. destruct Hx as [Hx H64].
+    rewrite forallb_forall in Hauth. rewrite (Hauth x Hx), (len64_even x H64). reflexivity. }
+  assert (W3 : forallb wf_cond c3 = true).
+  { unfold opt_conds in E3. destruct (f_kinds f) as [ks|]; [|inversion E3; reflexivity].
+    destruct (is_nil ks); [discriminate|]. inversion E3. reflexivity. }
+  rewrite W1, W2, W3, (tags_conds_wf _ _ Htags E6).
+  destruct (f_since f); destruct (f_until f); reflexivity.
+Qed.
+
+(* C01: for validated filters the statement consists of well-formed tokens, hence (sql_lex_roundtrip)
+   SQLite's lexer reads exactly these tokens: every client string sits inside one literal token *)
+Theorem build_query_tokens_wf : forall dl ml fs,
+  forallb valid_filter fs = true -> wf_toks (query_toks (build_query dl ml fs)) = true.
+Proof.
+  intros dl ml fs H. apply query_toks_wf. unfold build_query. cbn [q_where].
+  rewrite forallb_map. revert H. apply forallb_impl. intros f Hf. unfold clause_of.
+  destruct (evaluate_filter f) as [c|] eqn:E; [|reflexivity]. apply (evaluate_filter_wf f c Hf E).
+Qed.
+
+Corollary build_query_lexes : forall dl ml fs,
+  forallb valid_filter fs = true ->
+  lex (render (query_toks (build_query dl ml fs))) = Some (query_toks (build_query dl ml fs)).
+Proof. intros. apply sql_lex_roundtrip. apply build_query_tokens_wf. assumption. Qed.
